@@ -143,12 +143,36 @@ func class(line, obs string) string {
 	if sch == "env" {
 		sch = "env:" + s.DEK + ":" + s.KEK.Scheme
 	}
+	if sch == "siv" {
+		if ct := hx.UH(field(obs, "ct")); len(ct) >= 16 {
+			t := ct[len(ct)-16:]
+			ctr := uint64(t[0]) | uint64(t[1])<<8 | uint64(t[2])<<16 | uint64(t[3])<<24
+			if ctr+uint64((len(b[2])+15)/16) > 1<<32 {
+				sch = "siv-ctrwrap"
+			}
+		}
+	}
 	return fmt.Sprintf("%s/%s/%s/%d/p%s/a%s", sch, s.Route, s.Variant, len(s.Key), LenClass(len(b[2])), LenClass(len(b[3])))
 }
 
 func gen(r *hx.Rng, n int, tier string) []string {
 	var out []string
-	for i := 0; i < n; i++ {
+	// AES-GCM-SIV inputs constructed so that the little-endian 32-bit counter of the
+	// RFC 8452 counter mode wraps inside the message (tag starts with le32(start))
+	for i, start := range []uint32{0xffffffff, 0xfffffffe, 0xfffffffd, 0xfffffff0, 0xffffff00, 0x7fffffff, 0xffffffff, 0xfffffffe} {
+		s := &Spec{Scheme: "siv", Route: []string{"H", "K", "S"}[i%3], Variant: "R", ID: 7, Params: "-"}
+		if s.Route != "S" && i%2 == 0 {
+			s.Variant = "T"
+		}
+		ptLen := 33 + r.Intn(300)
+		if start == 0xffffff00 {
+			ptLen = 256*16 + 40
+		}
+		key, nonce, pt, ad := SIVWrap(r, []int{16, 32}[i%2], start, ptLen, 16+r.Intn(40))
+		s.Key = key
+		out = append(out, fmt.Sprintf("C01|%s|%s|%s|%s|%s", s, hx.H(nonce), hx.H(r.Bytes(12)), hx.H(pt), hx.H(ad)))
+	}
+	for i := len(out); i < n; i++ {
 		s := RandSpec(r)
 		max := 300
 		if tier != "quick" && r.Chance(5) {
